@@ -187,14 +187,30 @@ End VarArrayCons.
 Definition f1_pos (a : array_type) : bool :=
   match a with ANone Opaque | AVar Opaque _ => true | _ => false end.
 
-Definition nof1 (A : ast) : Prop :=
-  forall n t, get_type A n = Some t ->
-    match t with
-    | TStruct s => Forall (fun f => f1_pos (sf_value f) = false) (st_fields s)
-    | TUnion u => Forall (fun c => f1_pos (uc_value c) = false) (un_cases u) /\
-                  (forall c, un_default u = Some c -> f1_pos (uc_value c) = false)
-    | _ => True
-    end.
+Definition nof1_type (t : ast_type) : Prop :=
+  match t with
+  | TStruct s => Forall (fun f => f1_pos (sf_value f) = false) (st_fields s)
+  | TUnion u => Forall (fun c => f1_pos (uc_value c) = false) (un_cases u) /\
+                (forall c, un_default u = Some c -> f1_pos (uc_value c) = false)
+  | _ => True
+  end.
+
+Definition nof1 (A : ast) : Prop := forall n t, get_type A n = Some t -> nof1_type t.
+
+(* the same, relative to a set R of type names closed under reference (the types a decoder
+   can reach): an F1 position elsewhere in the specification does not matter *)
+Definition Rb (R : string -> Prop) (t : basic_type) : Prop :=
+  match t with Ident m => R m | _ => True end.
+
+Definition rrefs_ok (A : ast) (R : string -> Prop) (t : ast_type) : Prop :=
+  match t with
+  | TStruct s => Forall (fun f => Rb R (unwrap_array (sf_value f))) (st_fields s)
+  | TUnion u => Rb R (disc_type A u) /\
+                Forall (fun c => Rb R (unwrap_array (uc_value c))) (un_cases u) /\
+                (forall c, un_default u = Some c -> Rb R (unwrap_array (uc_value c)))
+  | TTypedef t => Rb R (td_target t)
+  | TEnum _ => True
+  end.
 
 Definition nof1_b (A : ast) : bool :=
   forallb (fun kv => match snd kv with
@@ -233,7 +249,9 @@ Section Cons.
   Variable md : module_ir.
   Hypothesis Hgen : gen A = EOk md.
   Hypothesis Hsup4 : sup4 A.
-  Hypothesis Hnof1 : nof1 A.
+  Variable R : string -> Prop.
+  Hypothesis HRc : forall n t, R n -> get_type A n = Some t -> rrefs_ok A R t.
+  Hypothesis Hnof1 : forall n t, R n -> get_type A n = Some t -> nof1_type t.
 
   Let Hsup : sup A := sup4_sup A Hsup4.
   Let Hcore : sup_core A := sup_c A Hsup.
@@ -255,12 +273,12 @@ Section Cons.
   Section Body.
     Variable rec : string -> M rval.
     Variable lf : nat.
-    Hypothesis Hrec : forall m ty, get_type A m = Some ty -> cons (CN m) (rec m).
+    Hypothesis Hrec : forall m ty, R m -> get_type A m = Some ty -> cons (CN m) (rec m).
 
     Lemma cons_basic t e :
-      decode_basic A t UseAlias = EOk e -> ref_ok A t -> cons (CB t) (eval_dexp md rec lf e).
+      decode_basic A t UseAlias = EOk e -> ref_ok A t -> Rb R t -> cons (CB t) (eval_dexp md rec lf e).
     Proof.
-      intros He Hr. apply decode_basic_alias in He as [He|[m [-> ->]]].
+      intros He Hr HR. apply decode_basic_alias in He as [He|[m [-> ->]]].
       - destruct t; cbn [prim_dexp] in He; inversion He; subst e; cbn [eval_dexp read_prim].
         + eapply cons_bind; [apply (cons_read_be 4)|]. intros n c [Hn ->]. apply cons_ret. split.
           * constructor. cbv beta in Hn. unfold u32_max. change (256 ^ 4) with 4294967296 in Hn. lia.
@@ -281,7 +299,7 @@ Section Cons.
           exists 4. split; [reflexivity|cbn; lia].
         + eapply cons_bind; [apply cons_read_variable_bytes|]. intros w c ->. apply cons_ret. split; [constructor|].
           exists (wsz_bytes w). split; [reflexivity|]. cbn [pcons]. unfold wsz_bytes. lia.
-      - cbn [eval_dexp]. destruct Hr as [ty Hty]. eapply cons_impl; [|eapply Hrec; exact Hty].
+      - cbn [eval_dexp]. destruct Hr as [ty Hty]. eapply cons_impl; [|eapply Hrec; [exact HR|exact Hty]].
         intros v c [Hv Hw]. split; [now constructor|]. exists c. split; [exact Hw|reflexivity].
     Qed.
 
@@ -296,10 +314,10 @@ Section Cons.
     Qed.
 
     Lemma cons_pos a e :
-      decode_array A a UseAlias = EOk e -> pos_ok a false -> ref_ok A (unwrap_array a) ->
+      decode_array A a UseAlias = EOk e -> pos_ok a false -> ref_ok A (unwrap_array a) -> Rb R (unwrap_array a) ->
       cons (CP a false) (eval_dexp md rec lf e).
     Proof.
-      intros He Hpos Hr. destruct a as [t|t s|t s]; cbn [decode_array unwrap_array] in *.
+      intros He Hpos Hr HR. destruct a as [t|t s|t s]; cbn [decode_array unwrap_array] in *.
       - eapply cons_impl; [|eapply cons_basic; eassumption]. intros v c [Hv Hw]. split; [now constructor|exact Hw].
       - destruct (resolve_size A s true) as [n| |] eqn:Ers; cbn [ebind] in He; try discriminate.
         unfold decode_fixed in He. destruct Hpos as [_ [_ [Hts _]]].
@@ -351,7 +369,7 @@ Section Cons.
               unfold decode_variable in He; rewrite Hsafe in He; inversion He; eauto. }
           destruct Hx as [mx ->]. cbn [eval_dexp]. destruct Hr as [ty Hty].
           eapply cons_bind.
-          * eapply cons_read_variable_array with (Q := ShN A m) (P := CN m); [eapply Hrec; exact Hty|].
+          * eapply cons_read_variable_array with (Q := ShN A m) (P := CN m); [eapply Hrec; [exact HR|exact Hty]|].
             intros v c [Hv Hw]. split; [exact Hv|]. destruct (shaped_wsz A md Hgen Hsup m v Hv) as [w [Hw' Hw4]].
             exists w. split; assumption.
           * intros l c [Hl [x [Hx [Hm ->]]]]. apply cons_ret.
@@ -363,10 +381,10 @@ Section Cons.
     Qed.
 
     Lemma cons_fexp a opt fe :
-      fexp_of A a opt = EOk fe -> pos_ok a opt -> ref_ok A (unwrap_array a) ->
+      fexp_of A a opt = EOk fe -> pos_ok a opt -> ref_ok A (unwrap_array a) -> Rb R (unwrap_array a) ->
       cons (CP a opt) (eval_fexp md rec lf fe).
     Proof.
-      intros Hfe Hpos Hr. destruct opt.
+      intros Hfe Hpos Hr HR. destruct opt.
       - unfold fexp_of in Hfe. inversion Hfe; subst fe.
         destruct Hpos as [Hsafe [Ho _]]. destruct (Ho eq_refl) as [m ->].
         cbn [unwrap_array safe_ref] in *. rewrite Hsafe. cbn [eval_fexp].
@@ -374,7 +392,7 @@ Section Cons.
         destruct (d =? 0).
         { apply cons_ret. split; [constructor|]. exists 4. split; [reflexivity|cbn; lia]. }
         destruct (d =? 1); [|apply cons_fail].
-        destruct Hr as [ty Hty]. eapply cons_bind; [eapply Hrec; exact Hty|]. intros x cx [Hx Hw].
+        destruct Hr as [ty Hty]. eapply cons_bind; [eapply Hrec; [exact HR|exact Hty]|]. intros x cx [Hx Hw].
         eapply (cons_bind (fun _ c => c = 0)); [apply cons_reserve|].
         intros _ c ->. apply cons_ret. split; [constructor; now constructor|].
         exists (4 + cx). cbn [wsz]. rewrite Hw. cbn [option_map wsz_opt pcons]. split; [reflexivity|lia].
@@ -386,11 +404,12 @@ Section Cons.
       Forall (fun f => pos_ok (sf_value f) (sf_optional f)) fs ->
       Forall (fun f => ref_ok A (unwrap_array (sf_value f))) fs ->
       Forall (fun f => f1_pos (sf_value f) = false) fs ->
+      Forall (fun f => Rb R (unwrap_array (sf_value f))) fs ->
       cons (CF fs) (eval_fields md rec lf ps).
     Proof.
-      induction fs as [|f fs IH]; intros ps Hps Hpos Hr Hf1; inversion Hps; subst; cbn [eval_fields].
+      induction fs as [|f fs IH]; intros ps Hps Hpos Hr Hf1 HRf; inversion Hps; subst; cbn [eval_fields].
       - apply cons_ret. split; [constructor|reflexivity].
-      - inversion Hpos; subst. inversion Hr; subst. inversion Hf1; subst.
+      - inversion Hpos; subst. inversion Hr; subst. inversion Hf1; subst. inversion HRf; subst.
         eapply cons_bind; [eapply cons_fexp; eassumption|]. intros x cx [Hx [w [Hw Hc]]].
         eapply cons_bind; [eapply IH; eassumption|]. intros xs cxs [Hxs Hz]. apply cons_ret.
         split; [now constructor|]. cbn [map zip_sizes snd]. rewrite Hw, Hz. cbn [option_map]. f_equal.
@@ -427,8 +446,10 @@ Section Cons.
       Variable d : xval.
       Hypothesis Td : TypedB A (disc_type A u) d.
       Hypothesis Hdd : dval_of (rv 0 0 d) = Some dd.
+      Hypothesis HRn : R n.
 
-      Let Hf1 := Hnof1 n _ Hget.
+      Let Hf1 := Hnof1 n _ HRn Hget.
+      Let HRu := HRc n _ HRn Hget.
 
       Lemma wsz_data_arm c l p w :
         In c (un_cases u) -> In l (uc_values c) -> wsz md p = Some w ->
@@ -472,7 +493,7 @@ Section Cons.
           + destruct Hfb as [c [Hc He]].
             eapply cons_bind.
             * eapply cons_pos; [exact He|exact (proj2 (sup_arms A Hcore n u Hget) c Hc)|
-                                exact (proj2 (sup4_refs A Hsup4 n _ Hget) c Hc)].
+                                exact (proj2 (sup4_refs A Hsup4 n _ Hget) c Hc)|exact (proj2 (proj2 HRu) c Hc)].
             * intros p cp [Hp [w [Hw Hcw]]]. apply cons_ret. split; [eapply SN_union_default; eassumption|].
               rewrite (wsz_default_arm c p w Hc Hw). f_equal.
               rewrite Hcw, pcons_padded by (exact (proj2 Hf1 c Hc)). lia.
@@ -483,7 +504,8 @@ Section Cons.
           + destruct Hen as [[c [l [e [Hc [Hl [E He]]]]]]|[[l [Hl [Hnd E]]]|[Hl E]]]; inversion E; subst.
             * eapply cons_bind.
               -- eapply cons_pos; [exact He|exact (proj1 (Forall_forall _ _) (proj1 (sup_arms A Hcore n u Hget)) c Hc)|
-                                   exact (proj1 (Forall_forall _ _) (proj1 (sup4_refs A Hsup4 n _ Hget)) c Hc)].
+                                   exact (proj1 (Forall_forall _ _) (proj1 (sup4_refs A Hsup4 n _ Hget)) c Hc)|
+                                   exact (proj1 (Forall_forall _ _) (proj1 (proj2 HRu)) c Hc)].
               -- intros p cp [Hp [w [Hw Hcw]]]. apply cons_ret. split; [eapply SN_union_data; eassumption|].
                  rewrite (wsz_data_arm c l p w Hc Hl Hw). f_equal.
                  rewrite Hcw, pcons_padded by (exact (proj1 (Forall_forall _ _) (proj1 Hf1) c Hc)). lia.
@@ -497,10 +519,11 @@ Section Cons.
     End OneUnionCons.
 
     Lemma cons_body n t b :
-      get_type A n = Some t -> emit_from_body A t = EOk b ->
+      R n -> get_type A n = Some t -> emit_from_body A t = EOk b ->
       cons (CN n) (eval_body md rec lf n b).
     Proof.
-      intros Hget Hb. destruct t as [s|u|e|td]; cbn [emit_from_body] in Hb.
+      intros HRn Hget Hb. pose proof (HRc n t HRn Hget) as HRt.
+      destruct t as [s|u|e|td]; cbn [emit_from_body] in Hb.
       - (* struct *)
         destruct (emapM _ (st_fields s)) as [ps| |] eqn:Eps; cbn [ebind] in Hb; try discriminate.
         inversion Hb; subst b. cbn [eval_body].
@@ -510,7 +533,7 @@ Section Cons.
           destruct (decode_array A (sf_value fd) UseAlias); cbn [ebind] in Hp |- *; try discriminate.
           inversion Hp. reflexivity. }
         eapply cons_bind.
-        + eapply cons_fields; [exact Hps|exact (sup_struct A Hcore n s Hget)|exact (sup4_refs A Hsup4 n _ Hget)|exact (Hnof1 n _ Hget)].
+        + eapply cons_fields; [exact Hps|exact (sup_struct A Hcore n s Hget)|exact (sup4_refs A Hsup4 n _ Hget)|exact (Hnof1 n _ HRn Hget)|exact HRt].
         + intros vs c [Hvs Hz]. apply cons_ret. pose proof (Hkeys _ _ (assoc_In _ _ _ Hget)) as Kk. cbn in Kk.
           rewrite Kk. split; [eapply SN_struct; [exact Hget|exact Hvs]|].
           cbn [wsz]. rewrite (find_size_gen A md Hgen Hkeys n _ Hget). cbn [i_body emit_size_body].
@@ -524,7 +547,7 @@ Section Cons.
         pose proof (disc_emit A Hsup4 u disc Hdisc Edisc) as Hde.
         assert (Hrd : ref_ok A (disc_type A u)).
         { destruct Hdisc as [E|[E|[E|[e [en [E He]]]]]]; rewrite E; cbn; eauto. }
-        eapply cons_bind; [eapply cons_basic; eassumption|]. intros dv cd Hdv.
+        eapply cons_bind; [eapply cons_basic; [eassumption|eassumption|exact (proj1 HRt)]|]. intros dv cd Hdv.
         pose proof (disc_consumes u dv cd Hdisc Hdv) as ->.
         destruct (disc_back A Hsup4 u dv Hdisc (proj1 Hdv)) as [d [dd [Td [Hdv1 Hdd]]]]. rewrite Hdv1.
         eapply cons_impl; [|eapply cons_arms; try eassumption].
@@ -573,8 +596,9 @@ Section Cons.
         destruct (decode_array A (typedef_pos td) UseAlias) as [e0| |] eqn:Ee; cbn [ebind] in Hb; try discriminate.
         inversion Hb; subst b. cbn [eval_body].
         eapply cons_bind.
-        + eapply cons_pos; [exact Ee|exact (proj1 (proj2 Htd))|].
-          pose proof (sup4_refs A Hsup4 n _ Hget) as R. cbn in R. unfold typedef_pos. destruct (td_alias td); exact R.
+        + eapply cons_pos; [exact Ee|exact (proj1 (proj2 Htd))| |].
+          * pose proof (sup4_refs A Hsup4 n _ Hget) as R0. cbn in R0. unfold typedef_pos. destruct (td_alias td); exact R0.
+          * cbn in HRt. unfold typedef_pos. destruct (td_alias td); exact HRt.
         + intros y c [Hy [w [Hw Hc]]]. apply cons_ret. split; [eapply SN_typedef; eassumption|].
           cbn [wsz]. rewrite (find_size_gen A md Hgen Hkeys n _ Hget). cbn [i_body emit_size_body]. rewrite Hw.
           cbn [option_map]. f_equal. rewrite N.add_0_r, Hc. unfold typedef_pos, pcons.
@@ -583,13 +607,117 @@ Section Cons.
   End Body.
 
   (* C02 for every accepted input: a successful decode consumed exactly wire_size() bytes *)
-  Theorem dec_consumed fuel : forall n t, get_type A n = Some t -> cons (CN n) (dec md fuel n).
+  Theorem dec_consumed fuel : forall n t, R n -> get_type A n = Some t -> cons (CN n) (dec md fuel n).
   Proof.
-    induction fuel as [|f IH]; intros n t Hget; cbn [dec]; [intros s _; exact I|].
+    induction fuel as [|f IH]; intros n t HRn Hget; cbn [dec]; [intros s _; exact I|].
     destruct (find_from_gen A md Hgen Hkeys n t Hget) as [b [Hb Hfind]]. rewrite Hfind. cbn [i_name i_body].
     eapply cons_body; eassumption.
   Qed.
 End Cons.
+
+(* ---------- decidable forms ---------- *)
+
+Definition bt_names (t : basic_type) : list string := match t with Ident m => [m] | _ => [] end.
+
+Definition type_refs (A : ast) (t : ast_type) : list string :=
+  match t with
+  | TStruct s => flat_map (fun f => bt_names (unwrap_array (sf_value f))) (st_fields s)
+  | TUnion u => bt_names (disc_type A u) ++
+                flat_map (fun c => bt_names (unwrap_array (uc_value c))) (un_cases u) ++
+                match un_default u with Some c => bt_names (unwrap_array (uc_value c)) | None => [] end
+  | TTypedef t => bt_names (td_target t)
+  | TEnum _ => []
+  end.
+
+(* the names reachable from n: breadth-first closure, |types| + 1 rounds *)
+Fixpoint reach_list (A : ast) (fuel : nat) (L : list string) : list string :=
+  match fuel with
+  | O => L
+  | S f =>
+    let next := flat_map (fun m => match get_type A m with Some t => type_refs A t | None => [] end) L in
+    reach_list A f (L ++ filter (fun x => negb (mem x L)) next)
+  end.
+
+Definition reach_of (A : ast) (n : string) : list string := reach_list A (S (List.length (types A))) [n].
+
+Definition closed_b (A : ast) (L : list string) : bool :=
+  forallb (fun m => match get_type A m with
+                    | Some t => forallb (fun x => mem x L) (type_refs A t)
+                    | None => true
+                    end) L.
+
+Definition nof1_typeb (t : ast_type) : bool :=
+  match t with
+  | TStruct s => forallb (fun f => negb (f1_pos (sf_value f))) (st_fields s)
+  | TUnion u => forallb (fun c => negb (f1_pos (uc_value c))) (un_cases u) &&
+                match un_default u with Some c => negb (f1_pos (uc_value c)) | None => true end
+  | _ => true
+  end.
+
+Lemma nof1_typeb_sound t : nof1_typeb t = true -> nof1_type t.
+Proof.
+  destruct t as [s|u|e|td]; cbn; try (intros; exact I); intros X.
+  - apply Forall_forall. intros f Hf. apply Bool.negb_true_iff. exact (proj1 (forallb_forall _ _) X f Hf).
+  - apply Bool.andb_true_iff in X as [X1 X2]. split.
+    + apply Forall_forall. intros c Hc. apply Bool.negb_true_iff. exact (proj1 (forallb_forall _ _) X1 c Hc).
+    + intros c Hc. rewrite Hc in X2. now apply Bool.negb_true_iff.
+Qed.
+
+(* the hypothesis of the per-type theorem: the closure of n is closed, contains n, and holds no
+   F1 position *)
+Definition nof1_from_b (A : ast) (n : string) : bool :=
+  let L := reach_of A n in
+  mem n L && closed_b A L &&
+  forallb (fun m => match get_type A m with Some t => nof1_typeb t | None => true end) L.
+
+Lemma Rb_names (L : list string) t : forallb (fun x => mem x L) (bt_names t) = true -> Rb (fun m => In m L) t.
+Proof. destruct t; cbn; try (intros; exact I). intros H. apply Bool.andb_true_iff in H as [H _]. now apply mem_In. Qed.
+
+Lemma forallb_app' {X} (f : X -> bool) a b : forallb f (a ++ b) = true -> forallb f a = true /\ forallb f b = true.
+Proof. rewrite forallb_app. apply Bool.andb_true_iff. Qed.
+
+Lemma forallb_flat_map {X Y} (f : Y -> bool) (g : X -> list Y) l x :
+  forallb f (flat_map g l) = true -> In x l -> forallb f (g x) = true.
+Proof.
+  induction l as [|a l IH]; intros H Hin; [contradiction|]. cbn [flat_map] in H.
+  apply forallb_app' in H as [H1 H2]. destruct Hin as [->|Hin]; [exact H1|now apply IH].
+Qed.
+
+Lemma closed_b_sound A L :
+  closed_b A L = true -> forall n t, In n L -> get_type A n = Some t -> rrefs_ok A (fun m => In m L) t.
+Proof.
+  intros H n t Hn G. pose proof (proj1 (forallb_forall _ _) H n Hn) as X. cbv beta in X. rewrite G in X.
+  destruct t as [s|u|e|td]; cbn [rrefs_ok type_refs] in *.
+  - apply Forall_forall. intros f Hf. apply Rb_names.
+    exact (forallb_flat_map _ (fun f0 : struct_field => bt_names (unwrap_array (sf_value f0))) _ f X Hf).
+  - apply forallb_app' in X as [X1 X]. apply forallb_app' in X as [X2 X3]. split; [now apply Rb_names|]. split.
+    + apply Forall_forall. intros c Hc. apply Rb_names.
+      exact (forallb_flat_map _ (fun c0 : union_case => bt_names (unwrap_array (uc_value c0))) _ c X2 Hc).
+    + intros c Hc. rewrite Hc in X3. now apply Rb_names.
+  - exact I.
+  - now apply Rb_names.
+Qed.
+
+(* C02, second sentence, per decoded type: only the types the decoder can reach matter *)
+Theorem consumed_from_b A md n t fuel s :
+  gen A = EOk md -> sup4_b A = true -> nof1_from_b A n = true -> get_type A n = Some t -> bok s ->
+  match dec md fuel n s with
+  | Ok v s' => wsz md v = Some (remaining s - remaining s') /\ remaining s' <= remaining s
+  | Panic _ => False
+  | _ => True
+  end.
+Proof.
+  intros Hgen H4 Hf Hget Hb. unfold nof1_from_b in Hf.
+  apply Bool.andb_true_iff in Hf as [Hf H3]. apply Bool.andb_true_iff in Hf as [H1 H2].
+  set (L := reach_of A n) in *.
+  assert (Hn1 : forall m t0, In m L -> get_type A m = Some t0 -> nof1_type t0).
+  { intros m t0 Hm G. pose proof (proj1 (forallb_forall _ _) H3 m Hm) as X. cbv beta in X. rewrite G in X.
+    now apply nof1_typeb_sound. }
+  pose proof (dec_consumed A md Hgen (sup4_b_sound A H4) (fun m => In m L) (closed_b_sound A L H2) Hn1
+                fuel n t (proj1 (mem_In _ _) H1) Hget s Hb) as H.
+  destruct (dec md fuel n s); try exact I; try contradiction.
+  destruct H as [[_ Hw] [_ Hr]]. split; assumption.
+Qed.
 
 Theorem consumed_b A md n t fuel s :
   gen A = EOk md -> sup4_b A = true -> nof1_b A = true -> get_type A n = Some t -> bok s ->
@@ -600,7 +728,11 @@ Theorem consumed_b A md n t fuel s :
   end.
 Proof.
   intros Hgen H4 Hf Hget Hb.
-  pose proof (dec_consumed A md Hgen (sup4_b_sound A H4) (nof1_b_sound A Hf) fuel n t Hget s Hb) as H.
+  pose proof (dec_consumed A md Hgen (sup4_b_sound A H4) (fun _ => True)
+                (fun n0 t0 _ _ => ltac:(destruct t0 as [s0|u0|e0|td0]; cbn; [apply Forall_forall; intros f _; destruct (unwrap_array (sf_value f)); exact I
+                                          |split; [destruct (disc_type A u0); exact I|split; [apply Forall_forall; intros c _; destruct (unwrap_array (uc_value c)); exact I|intros c _; destruct (unwrap_array (uc_value c)); exact I]]
+                                          |exact I|destruct (td_target td0); exact I]))
+                (fun n0 t0 _ G => nof1_b_sound A Hf n0 t0 G) fuel n t I Hget s Hb) as H.
   destruct (dec md fuel n s); try exact I; try contradiction.
   destruct H as [[_ Hw] [_ Hr]]. split; assumption.
 Qed.
